@@ -25,6 +25,7 @@ func init() {
 			{ID: "C15.R2", Min: 3, Doc: "ring and destination list agree: in every function that builds a consistentHashingConfig the hasher is NewConsistentHasher(d) with d the stored dests; in updateDestination the extender call comes after Destination.Update", Run: c15r2},
 			{ID: "C15.R3", Min: 5, Doc: "overrides: every exported baseRoute method that passes baseConfigExtender is redeclared on *ConsistentHashing passing consistentHashingConfigExtender", Run: c15r3},
 			{ID: "C15.R4", Min: 4, Doc: "ring construction constants: replica count 100; MD5 first two bytes, binary.BigEndian; key pieces; truth table of hashRing.Less against the lexicographic order (Position, Hostname, Instance)", Run: c15r4},
+			{ID: "C15.R6", Min: 1, Doc: "address splitting: an address with exactly two ':' is split into host:port (first two components joined by ':') and instance (third component); the ring key uses the host part before the first ':'", Run: c15r6},
 			{ID: "C15.R5", Min: 2, Doc: "lookup: sort.Search over len(Ring) with predicate Ring[i].Position >= position, result % len(Ring), returns Ring[index].DestinationIndex; Dispatch indexes Dests() with it", Run: c15r5},
 		},
 	})
@@ -543,4 +544,41 @@ func c15r5(c *Check) {
 		}
 	})
 	c.Judge(retOK && idxOK, "route.ConsistentHashing.Dispatch sends to Dests()[ring index]", c.AtFn(disp), "the ring entry's DestinationIndex selects the destination of the same configuration", "the destination is not selected as Dests()[Ring[index].DestinationIndex] of the loaded configuration")
+}
+
+func c15r6(c *Check) {
+	fn := c.P.Func("destination", "", "addrInstanceSplit")
+	count2, split, join02, inst2 := false, false, false, false
+	allInstrs(fn, func(in ssa.Instruction) {
+		switch x := in.(type) {
+		case *ssa.BinOp:
+			if call, ok := x.X.(*ssa.Call); ok && calleeName(call.Common()) == "strings.Count" && x.Op == token.EQL {
+				sep, _ := constString(call.Call.Args[1])
+				if k, ok := constInt(x.Y); ok && k == 2 && sep == ":" {
+					count2 = true
+				}
+			}
+		case *ssa.Call:
+			switch calleeName(x.Common()) {
+			case "strings.Split":
+				if sep, _ := constString(x.Call.Args[1]); sep == ":" {
+					split = true
+				}
+			case "strings.Join":
+				sep, _ := constString(x.Call.Args[1])
+				if sl, ok := x.Call.Args[0].(*ssa.Slice); ok && sep == ":" {
+					lo, okl := constInt(sl.Low)
+					hi, okh := constInt(sl.High)
+					if (sl.Low == nil || okl && lo == 0) && okh && hi == 2 {
+						join02 = true
+					}
+				}
+			}
+		case *ssa.IndexAddr:
+			if k, ok := constInt(x.Index); ok && k == 2 {
+				inst2 = true
+			}
+		}
+	})
+	c.Judge(count2 && split && join02 && inst2, "destination.addrInstanceSplit host:port:instance", c.AtFn(fn), "two ':' → (components[0:2] joined by ':', components[2])", "host:port:instance addresses are not split into (host:port, instance): the ring key or the dial address is wrong")
 }
